@@ -111,7 +111,8 @@ func majEnumerate(s *Shard, prop string, fn func(c *Case)) {
 								fn(&Case{Prop: prop, Kind: "majority", Req: renameIDs(majRequest(cfg), untidyIDs)}) // untidy ids
 							}
 							if g.n >= 3 && g.n <= 4 && g.m == 2 && len(g.levels) == 3 && g.levels[2] == 2 {
-								cfg.Reverse = true // choseToMake listed in descending id order
+								fn(&Case{Prop: prop, Kind: "majority", Req: reverseChose(majRequest(cfg))}) // choseToMake against the catalogue order
+								cfg.Reverse = true                                                          // choseToMake listed in descending id order
 								fn(&Case{Prop: prop, Kind: "majority", Req: majRequest(cfg)})
 							}
 						}
@@ -190,6 +191,29 @@ func c11Run(s *Shard) {
 		s.Begin(c)
 		s.Report(c11Check(c))
 	})
+	// 13 and more alternatives, every draw policy, current choice none / considered / known only
+	for _, n := range manySizes {
+		for pat := 0; pat < 4; pat++ {
+			for _, pol := range majPolicies {
+				for _, cc := range []string{"", "n00", "zz"} {
+					if !s.Take() {
+						continue
+					}
+					mp := M{"weights": M{"c1": 1.0, "c2": 1.0}, "drawResolution": pol, "randomSeed": 4}
+					if cc != "" {
+						mp["currentChoice"] = cc
+					}
+					if pol == "random" {
+						continue // the oracle is existential over coin sequences: exponential in the number of draws
+					}
+					c := &Case{Prop: "C11", Kind: "majority", Req: manyAlternatives("majorityHeuristic", n, pat, mp)}
+					s.Evals++
+					s.Begin(c)
+					s.Report(c11Check(c))
+				}
+			}
+		}
+	}
 	majEnumerate(s, "C11", func(c *Case) {
 		s.Evals++
 		s.Begin(c)
